@@ -39,7 +39,7 @@ def run_starts(p):
     td = TensorDict({"action_mask": mask, "locs": torch.zeros(B, mask.shape[1], 2)}, batch_size=[B])
     gen = types.SimpleNamespace(num_loc=n)
     bad = []
-    for seed in range(8):
+    for seed in range(32):
         torch.manual_seed(seed)
         if env_name == "pdp":
             from rl4co.envs.routing.pdp.env import PDPEnv
@@ -50,6 +50,8 @@ def run_starts(p):
             from rl4co.envs.routing.mtvrp.env import MTVRPEnv
 
             sel = MTVRPEnv.select_start_nodes(object.__new__(MTVRPEnv), td, k)
+        elif env_name == "sampling":
+            sel = ops.sample_n_random_actions(td, k)
         elif env_name in ("flp", "mcp"):
             import importlib
 
@@ -61,9 +63,9 @@ def run_starts(p):
         for b in range(B):
             feas = int(mask[b, 1:].sum()) if has_depot else int(mask[b].sum())
             mine = [int(sel[j * B + b]) for j in range(k)]
+            if feas >= 1 and any(not bool(mask[b, a]) for a in mine):
+                bad.append(f"instance {b} (mask {mask[b].tolist()}) gets the infeasible forced start(s) {mine} although {feas} feasible start(s) exist (num_starts={k})")
             if feas >= k:
-                if any(not bool(mask[b, a]) for a in mine):
-                    bad.append(f"instance {b} (mask {mask[b].tolist()}) gets the infeasible forced start(s) {mine} although {feas} >= {k} feasible starts exist")
                 if len(set(mine)) < k:
                     bad.append(f"instance {b} (mask {mask[b].tolist()}) gets duplicate forced starts {mine} although {feas} >= {k} feasible starts exist")
         if bad:
